@@ -165,10 +165,11 @@ class _BackendInterface(metaclass=ABCMeta):
                 # if redis unavailable and a backend have flag `safe`
                 # we will have a brake lock
                 try:
-                    if await self._lock_probe(key) is None:
-                        yield
-                        return
+                    alive = await self._lock_probe(key) is not None
                 except CacheBackendInteractionError:
+                    alive = False
+                if not alive:
+                    # the protected block runs outside the `try`: an error it raises is its own, not the probe's
                     yield
                     return
 
